@@ -3,6 +3,8 @@ import FeatModel.Lemmas.C09
 import FeatModel.Lemmas.C09Algebra
 import FeatModel.Lemmas.C09Data
 import FeatModel.Lemmas.C09Linear
+import FeatModel.Lemmas.C09Ref
+import FeatModel.Lemmas.C09Abstract
 /-!
 # C09 — multigrid performs the documented V/F/W cycle
 
@@ -151,6 +153,136 @@ theorem C09.cycle_linear_additive (levels : Array Level) (k : Cycle) (top crs : 
       (startState o2 top d2)).get top).sol, rfl, ?_, ?_⟩
   · simp only [runProg, hab]
   · simp only [runProg, hsa, hs']
+
+/-! ## the result is the independent textbook operator applied to the defect -/
+
+/-- `vec_cor` of one `MultiGrid::apply` (the function `applyOnce` the driver executes, i.e. FEAT's loop/stack-machine
+    cycle on the persistent level vectors) is exactly the independent recursive textbook operator `mgRef`
+    (`Model/MGRef.lean`: plain recursion on values, no instruction lists, no level-vector store, no counters)
+    applied to the defect - for V, F and W, any number of levels, any sub-range `top ≤ crs`, every presence/absence
+    combination of pre, post and peak smoothers and coarse solver, all three coarse grid correction modes, and whatever
+    earlier applications left in the object. -/
+theorem C09.apply_eq_textbook (levels : Array Level) (k : Cycle) (cgc : Cgc) (top crs : Nat) (h : top ≤ crs)
+    (d : Vec) (o : Obj) (ho : crs < o.lv.size) :
+    ∃ log, (applyOnce levels k cgc top crs d o).1 = .ok log (applyRef levels k cgc top crs d) := by
+  obtain ⟨cnt, e⟩ := C09.apply_eq_reference levels k cgc top crs h d o
+  rw [e]
+  exact runProg_eq_applyRef levels k cgc top crs h d o ho cnt
+
+/-- Linearity of the textbook operator, with the exact list of what has to be linear (`LinLevel`): on every level
+    the system operator, the defect and correction filters, restriction, prolongation, every *present* pre, post and
+    peak smoother and the coarse solver, and the "format" vector must be 0; the coarse grid correction must be
+    `Fixed`.  Then `cycle (a·d1 + d2) = a·cycle d1 + cycle d2` on any module over a commutative ring.  (For the
+    driver's instance at `Rat` see also `C09.cycle_linear_additive` / `C09.cycle_homogeneous`.) -/
+theorem C09.textbook_linear {K V : Type} [CommRing K] [AddCommGroup V] [Module K V]
+    (omE : V → V → V → K) (omD : V → V → K) (lv : Nat → RLevel V) (h : ∀ l, LinLevel K (lv l))
+    (crs : Nat) (k : RKind) (d : Nat) (a : K) (d1 d2 : V) :
+    mgRef (modOps omE omD) lv .fixed crs k d (a • d1 + d2) =
+      a • mgRef (modOps omE omD) lv .fixed crs k d d1 + mgRef (modOps omE omD) lv .fixed crs k d d2 :=
+  lin_mgRef omE omD lv h crs k d a d1 d2
+
+/-- With adaptive coarse grid correction the cycle is not linear; every correction step of the textbook operator
+    (hence of FEAT's cycle, by `C09.apply_eq_textbook`) is `x + ω c` with the guarded minimising step length of
+    `C09.acgc_minEnergy` / `C09.acgc_minDefect` / `C09.acgc_guard`. -/
+theorem C09.adaptive_step (L : Level) (b d x c : Vec) :
+    (rStep ratOps .minEnergy (refLevel L) b d x c).1 =
+      axpy (cgcOmega (dot d c) (dot (filt L.fidx (mulVec L.A c)) c)) c x ∧
+    (rStep ratOps .minDefect (refLevel L) b d x c).1 =
+      axpy (cgcOmega (dot d (filt L.fidx (mulVec L.A c)))
+        (dot (filt L.fidx (mulVec L.A c)) (filt L.fidx (mulVec L.A c)))) c x :=
+  ⟨rfl, rfl⟩
+
+/-- In every mode the defect that the textbook operator hands to the post-smoother (recomputed for `Fixed`, updated
+    by `d - ω F(A c)` otherwise) is the residual of the corrected iterate, if `d` is the residual of `x` and the
+    vectors have the sizes of the level matrix. -/
+theorem C09.step_defect_is_residual (cgc : Cgc) (L : Level) (b x c : Vec) (hc : c.length = x.length)
+    (hb : b.length = L.A.length) :
+    (rStep ratOps cgc (refLevel L) b (defect L b x) x c).2 =
+      defect L b (rStep ratOps cgc (refLevel L) b (defect L b x) x c).1 := by
+  have sc : ∀ w : Rat, axpy (-w) (filt L.fidx (mulVec L.A c)) (defect L b x) = defect L b (axpy w c x) := by
+    intro w
+    unfold defect
+    rw [mulVec_axpy _ _ _ _ hc, vsub_axpy _ _ _ _ (by simp [mulVec_length]),
+      filt_axpy _ _ _ _ (by simp [mulVec_length, vsub_length, hb])]
+  cases cgc with
+  | fixed => rfl
+  | minEnergy => exact sc _
+  | minDefect => exact sc _
+
+/-! ## absent smoothers: the `nullptr` code paths -/
+
+/-- No pre-smoother (or a restriction that continues from an inner peak): `format` + copy resp. nothing at all. -/
+theorem C09.absent_pre (L : Level) (i : Nat) (v : LvVecs) (h : L.pre = none) :
+    (restLocal L i true v).1.sol = List.replicate L.n 0 ∧ (restLocal L i true v).1.defe = filt L.fidx v.rhs ∧
+    (restLocal L i true v).2 = [s!"R{i}"] ∧
+    (restLocal L i false v).1.sol = v.sol ∧ (restLocal L i false v).1.defe = filt L.fidx v.defe ∧
+    (restLocal L i false v).2 = [s!"R{i}"] := by
+  simp [restLocal, preSmooth, h]
+
+/-- No post-smoother, or a prolongation onto an inner peak level: the solution is only corrected, the defect vector
+    is not touched and no defect is computed. -/
+theorem C09.absent_post (cgc : Cgc) (L : Level) (i : Nat) (sm : Bool) (v : LvVecs) (xc : Vec)
+    (h : L.post = none ∨ sm = false) :
+    (prolLocal cgc L i sm v xc).1.sol =
+      (rStep ratOps cgc (refLevel L) v.rhs v.defe v.sol (filt L.fidx (mulVec L.P xc))).1 ∧
+    (prolLocal cgc L i sm v xc).1.defe = v.defe ∧
+    (prolLocal cgc L i sm v xc).2 = [s!"P{i}"] ++ (cgcStep cgc L i { v with cor := filt L.fidx (mulVec L.P xc) }).2.2
+    := by
+  rcases h with h | h
+  · cases cgc <;> simp [prolLocal, cgcStep, rStep, ratOps, h] <;> rfl
+  · subst h
+    cases cgc <;> cases L.post <;> simp [prolLocal, cgcStep, rStep, ratOps] <;> rfl
+
+/-- No peak smoother: the pre- and then the post-smoother are used; if both are absent as well, the peak step only
+    recomputes the defect. -/
+theorem C09.absent_peak (L : Level) (i : Nat) (v : LvVecs) (h : L.peak = none) :
+    (peakLocal L i v).1.sol = (match L.post with
+      | some S => rSmooth ratOps (refLevel L) (mulVec S) v.rhs
+      | none => fun x => x)
+      ((match L.pre with
+        | some S => rSmooth ratOps (refLevel L) (mulVec S) v.rhs
+        | none => fun x => x) v.sol) ∧
+    (L.pre = none → L.post = none →
+      peakLocal L i v = ({ v with defe := defect L v.rhs v.sol }, [s!"D{i}"])) := by
+  constructor
+  · rw [(peakLocal_spec L i v).2.1]
+    unfold rPeak
+    have e1 : (refLevel L).peak = L.peak.map mulVec := rfl
+    have e2 : (refLevel L).pre = L.pre.map mulVec := rfl
+    have e3 : (refLevel L).post = L.post.map mulVec := rfl
+    rw [e1, e2, e3, h]
+    cases L.pre <;> cases L.post <;> rfl
+  · intro h1 h2
+    simp [peakLocal, peakTail, h, h1, h2]
+
+/-- No coarse solver: the filtered identity, no solver call. -/
+theorem C09.absent_coarse (L : Level) (i : Nat) (v : LvVecs) (h : L.crs = none) :
+    coarseLocal L i v = ({ v with sol := filt L.fidx v.rhs }, []) := by
+  simp [coarseLocal, h]
+
+/-! ## two-grid algebra (the level-independent convergence *rate* itself is measured only, not proved) -/
+
+/-- With the exact coarse solve `C = (R A P)⁻¹` of the Galerkin coarse operator, the coarse grid correction
+    `T = I - P C R A` annihilates the range of `P` and is a projection.  Hypotheses, all explicit: `C` is a left
+    inverse of `R A P` for the first claim; `C` is a right inverse and `A`, `R`, `P`, `C` are additive for the second
+    (any additive groups `V`, `W`; in particular vector spaces over a field with an invertible `R A P`). -/
+theorem C09.twogrid_cgc_projection {V W : Type} [AddCommGroup V] [AddCommGroup W]
+    (A : V → V) (R : V → W) (P : W → V) (C : W → W)
+    (hA : ∀ x y, A (x - y) = A x - A y) (hR : ∀ x y, R (x - y) = R x - R y)
+    (hP : ∀ x y, P (x - y) = P x - P y) (hC : ∀ x y, C (x - y) = C x - C y)
+    (hleft : ∀ y, C (R (A (P y))) = y) (hright : ∀ z, R (A (P (C z))) = z) :
+    (∀ y, P y - P (C (R (A (P y)))) = 0) ∧
+    (∀ x, (x - P (C (R (A x)))) - P (C (R (A (x - P (C (R (A x))))))) = x - P (C (R (A x)))) :=
+  ⟨cgc_annihilates_range A R P C hleft, cgc_idempotent A R P C hA hR hP hC hright⟩
+
+/-- The operator of the previous theorem is the error propagation of the textbook two-level V-cycle without
+    smoothers: `mgRef` on two levels is `b ↦ P C R b`. -/
+theorem C09.twogrid_is_mgRef {K V : Type} [CommRing K] [AddCommGroup V] [Module K V]
+    (omE : V → V → V → K) (omD : V → V → K) (lv : Nat → RLevel V) (C : V → V)
+    (h0 : (lv 0).pre = none ∧ (lv 0).post = none ∧ (lv 0).zero = 0 ∧ (lv 0).Fd = id ∧ (lv 0).Fc = id)
+    (h1 : (lv 1).crs = some C ∧ (lv 1).Fd = id) (e : V) :
+    e - mgRef (modOps omE omD) lv .fixed 1 .V 1 ((lv 0).A e) = e - (lv 0).P (C ((lv 0).R ((lv 0).A e))) := by
+  rw [mgRef_twogrid omE omD lv C h0 h1]
 
 /-! ## coarse solves and peak levels -/
 
